@@ -272,6 +272,7 @@ package rosmar
 //@   ensures [C20:queue.close.unlocked] any: nolocks()
 //@
 //@ fn (*Collection).enqueueBackfillEvents
+//@   modular
 //@   requires c.id >= 1
 //@   requires forall o: DocId :: DocInv(docAt(o)) && (docAt(o).present ==> docAt(o).exp == 0 || docAt(o).exp > 2592000)
 //@   requires q != nil
@@ -286,3 +287,61 @@ package rosmar
 //@   loop 1 body [C09,C14:backfill.expiry]  lastpushed().expiry == cursorRow().exp
 //@   loop 1 body [C09:backfill.datatype]    (bit(lastpushed().datatype, 1) <==> cursorRow().isJSON != 0) && (!keysOnly ==> (bit(lastpushed().datatype, 4) <==> len(cursorRow().xattrs) > 0))
 //@   loop 1 body [C09:backfill.body]        !keysOnly && len(cursorRow().xattrs) == 0 ==> lastpushed().value == cursorRow().value
+//@
+//@ fn (*queue[T]).pull
+//@   loop 1 invariant [C16:queue.pull.wait] true
+//@   loop 1 havoc q.list
+//@   ensures [C08,C15:queue.pull.oldest] !listnil(q.list) ==> count("list.back") == 1 && count("list.removeback") == 1 && count("list.pushfront") == 0
+//@   ensures [C16:queue.pull.closed]     listnil(q.list) ==> result == nil && count("list.removeback") == 0
+//@   ensures [C20:queue.pull.unlocked]   any: nolocks()
+//@
+//@ fn (*Collection).Set
+//@   modular
+//@   flag modifies=db
+//@   ensures [C01:Set.err-unchanged] err != nil ==> db == old(db)
+//@
+//@ fn (*Collection).Get
+//@   modular
+//@   ensures [C01,C11:Get.frame] db == old(db)
+//@
+//@ fn (*dcpFeed).writeCheckpoint
+//@   modular
+//@   let on = feed.args.CheckpointPrefix != "" && feed.lastCasChanged
+//@   ensures [C15:writeCheckpoint.guard]  !on ==> count("call:Set") == 0 && err == nil
+//@   ensures [C15:writeCheckpoint.once]   on ==> count("call:Set") == 1
+//@   ensures [C15:writeCheckpoint.value]  on ==> callarg("Set", 4).LastSeq == feed.lastCas
+//@   ensures [C15:writeCheckpoint.key]    on ==> callarg("Set", 1) == feed.args.CheckpointPrefix + ":" + feed.args.ID
+//@   ensures [C15,C11:writeCheckpoint.coll] on ==> callarg("Set", 0) == feed.collection
+//@
+//@ fn (*dcpFeed).readCheckpoint
+//@   modular
+//@   flag writes=feed.lastCas
+//@   ensures [C15:readCheckpoint.key]     feed.args.CheckpointPrefix != "" ==> count("call:Get") == 1 && callarg("Get", 1) == feed.args.CheckpointPrefix + ":" + feed.args.ID && callarg("Get", 0) == feed.collection
+//@   ensures [C15:readCheckpoint.noprefix] feed.args.CheckpointPrefix == "" ==> count("call:Get") == 0 && feed.lastCas == old(feed.lastCas) && err == nil
+//@   ensures [C15:readCheckpoint.frame]   db == old(db)
+//@
+//@ fn (*dcpFeed).run
+//@   loop 1 invariant [C15:run.loop] true
+//@   loop 1 body [C08,C16:run.one-delivery] iter("callback") == 1 && iter("list.removeback") == 1
+//@   loop 1 body [C15:run.lastcas-max]  feed.lastCas == max(athead(feed.lastCas), delivered().Cas)
+//@   loop 1 body [C15:run.changed]      feed.lastCasChanged <==> (athead(feed.lastCasChanged) || delivered().Cas > athead(feed.lastCas))
+//@   ensures [C16:run.done-closed-once] !isnull(feed.args.DoneChan) ==> count("closechan") == 1
+//@   ensures [C16:run.done-absent]      isnull(feed.args.DoneChan) ==> count("closechan") == 0
+//@   ensures [C15:run.checkpoint]       count("call:writeCheckpoint") == (if feed.lastCasChanged then 1 else 0)
+//@   ensures [C20:run.unlocked]         any: nolocks()
+//@
+//@ fn (*Collection).StartDCPFeed
+//@   requires c.id >= 1
+//@   requires forall o: DocId :: DocInv(docAt(o)) && (docAt(o).present ==> docAt(o).exp == 0 || docAt(o).exp > 2592000)
+//@   let bf = args.Backfill != 18446744073709551615
+//@   let resume = args.Backfill == 1
+//@   ensures [C15:StartDCPFeed.resume-needs-prefix] resume && args.CheckpointPrefix == "" ==> result != nil && count("spawn") == 0 && count("call:enqueueBackfillEvents") == 0
+//@   ensures [C15:StartDCPFeed.resume-from] result == nil && resume ==> count("call:readCheckpoint") == 1 && callarg("enqueueBackfillEvents", 1) == callarg("readCheckpoint", 0).lastCas + 1
+//@   ensures [C09:StartDCPFeed.backfill-from] result == nil && bf && !resume ==> callarg("enqueueBackfillEvents", 1) == args.Backfill
+//@   ensures [C09:StartDCPFeed.keysonly]      result == nil && bf ==> callarg("enqueueBackfillEvents", 2) == args.KeysOnly && callarg("enqueueBackfillEvents", 0) == c
+//@   ensures [C09:StartDCPFeed.markers]       result == nil && bf ==> pushes()[0].opcode == 0 && pushes()[1].opcode == 1 && pushpos(0) < callpos("enqueueBackfillEvents") && callpos("enqueueBackfillEvents") < pushpos(1)
+//@   ensures [C09,C16:StartDCPFeed.push-count] result == nil ==> lenlist(pushes()) == (if bf then 2 else 0) + (if args.Dump then 1 else 0)
+//@   ensures [C16:StartDCPFeed.dump-eof]      (result == nil && args.Dump && bf ==> pushes()[2].isnil) && (result == nil && args.Dump && !bf ==> pushes()[0].isnil)
+//@   ensures [C08,C16:StartDCPFeed.spawned]   result == nil ==> count("spawn") == 1
+//@   ensures [C09:StartDCPFeed.nobackfill]    !bf ==> count("call:enqueueBackfillEvents") == 0
+//@   ensures [C20:StartDCPFeed.unlocked]      any: nolocks()
